@@ -60,5 +60,5 @@ MANIFEST = {
     "engine": "sched",
     "technique": "property-based testing with controlled schedules: Hypothesis-generated DAG programs and completion-order choice vectors (exhaustive choice tree for small cases), trace validity oracle + reference evaluator",
     "level_text": "Exploration of programs x configurations x completion orders. The harness decides which in-flight node finishes at every blocking point of the real scheduler, so an ordering bug (a successor released too early, a flag not treated as an edge) is held open and observed deterministically; for programs with <= 6 sites the whole completion-order tree is enumerated (bounded number of leaves). Absence only within the generated bounds.",
-    "level_note": "Trusted: the interposition of concurrent.futures.wait / ThreadPoolExecutor / asyncio.wait (vlib/sched.py), the reference evaluator (vlib/prog.py). Races inside a single wait call are reached only by the free-running mode.",
+    "level_note": "Thorough tier additionally enumerates a complete small scope (every DAG on 4 ordered nodes x the property's own dimension - priorities / sequential subsets / failing node - with the whole completion-order tree of each). Trusted: the interposition of concurrent.futures.wait / ThreadPoolExecutor / asyncio.wait (vlib/sched.py), the reference evaluator (vlib/prog.py). Races inside a single wait call are reached only by the free-running mode.",
 }
